@@ -635,6 +635,88 @@ SOLVER_TARGETS = ["Skel/CorrSolvers.vo"]
 SOLVER_SOURCES = ["skglm/solvers/gram_cd.py", "skglm/solvers/group_bcd.py", "skglm/solvers/prox_newton.py", "skglm/solvers/fista.py", "skglm/utils/anderson.py", "skglm/solvers/multitask_bcd.py", "skglm/solvers/group_prox_newton.py"]
 
 
+
+# ------------------------------------------------------------------ ProxNewton end to end (regenerated kernels)
+PN_E2E_IMPORTS = ["Gen.ProxFuncs", "Gen.PenSeparable", "Gen.SparseOps", "Gen.DfSingle", "Gen.KernCD", "Gen.KernPN", "Skel.AndersonCD",
+                  "Skel.Generic", "Skel.MockACD", "Skel.ProxNewton", "Skel.CorrSolvers"]
+
+
+def run_real_pn_e2e(X, y, pen, cfg, w_init, Xw_init, sparse_X):
+    """the REAL ProxNewton._solve with the real compiled kernels, Quadratic datafit and penalty; only np.argpartition (an
+    unspecified selection among ties) is replaced by the deterministic rule the model uses"""
+    import warnings
+    import skglm.solvers.prox_newton as pn
+    from skglm.datafits import Quadratic
+    from skglm.utils.jit_compilation import compiled_clone
+    saved = np.argpartition
+    try:
+        # the compiled kernels capture the module global `np` when numba types them, so numpy itself gets the deterministic
+        # selection rule for the duration of the solve (the kernels do not call argpartition)
+        np.argpartition = _ha.NpProxy.argpartition
+        solver = pn.ProxNewton(p0=cfg["p0"], max_iter=cfg["max_iter"], max_pn_iter=cfg["max_pn_iter"], tol=cfg["tol"],
+                               ws_strategy="fixpoint" if cfg["fixpoint"] else "subdiff", fit_intercept=cfg["fit_intercept"])
+        Xs = sparse.csc_matrix(X) if sparse_X else X
+        w0 = None if w_init is None else np.array(w_init, dtype=float)
+        x0 = None if Xw_init is None else np.array(Xw_init, dtype=float)
+        try:
+            with warnings.catch_warnings():
+                warnings.simplefilter("ignore")
+                w, objs, stop = solver._solve(Xs, y, compiled_clone(Quadratic()), compiled_clone(pen), w0, x0)
+        except (ValueError, IndexError, TypeError, ZeroDivisionError, UnboundLocalError) as e:
+            return dict(err=True, exc=repr(e))
+        if not np.all(np.isfinite(w)):
+            return dict(err=True, exc="non-finite w")
+        return dict(err=False, w=list(map(float, w)), obj=list(map(float, objs)), stop=float(stop))
+    finally:
+        np.argpartition = saved
+
+
+def make_pn_e2e_cases(rng, n):
+    import skglm.penalties.separable as sep
+    sig = kernels.gen_sig()
+    cases, dist = [], dict(err=0, iters={}, intercept=0, fixpoint=0, warm=0, sparse=0, penalties={})
+    vals = [-2.0, -1.0, -0.5, 0.0, 0.0, 0.5, 1.0, 2.0]
+    for k in range(n):
+        ns, p = 4, rng.randint(1, 4)
+        X = np.zeros((ns, p), order="F")
+        for j in range(p):
+            for i in rng.sample(range(ns), rng.choice([0, 1, 2, 4, 4])):
+                X[i, j] = rng.choice([-1.0, 1.0])
+        y = np.array([rng.choice([-3.0, -2.0, -1.0, -0.5, 0.5, 1.0, 2.0, 3.0]) for _ in range(ns)])
+        fi, fixp = rng.random() < 0.5, rng.random() < 0.5
+        a = rng.choice([0.125, 0.25, 0.5, 1.0])
+        wts = np.array([rng.choice([0.0, 0.5, 1.0, 2.0]) for _ in range(p)])
+        if rng.random() < 0.5:
+            pname, pen, fd = "L1", sep.L1(a), dict(alpha=q(a), positive="false")
+        else:
+            pname, pen, fd = "WeightedL1", sep.WeightedL1(a, wts), dict(alpha=q(a), weights=vq(wts), positive="false")
+        cfg = dict(max_iter=rng.choice([0, 1, 2, 3]), max_pn_iter=rng.choice([1, 2, 3]), p0=rng.choice([1, 2, 10]),
+                   tol=rng.choice([2.0 ** -12, 2.0 ** -6, 2.0 ** -3, 0.5]), fixpoint=fixp, fit_intercept=fi)
+        w_init = Xw_init = None
+        if rng.random() < 0.4:
+            w_init = [rng.choice(vals) for _ in range(p + fi)]
+            Xw_init = list(X @ np.array(w_init[:p]) + (w_init[-1] if fi else 0.0))
+        sp = rng.random() < 0.3
+        obs = run_real_pn_e2e(X, y, pen, cfg, w_init, Xw_init, sp)
+
+        def meth(m):
+            return f"(@{pname}_{m} Q _ {kernels.fields_of(sig, pname + '_' + m, fd)})"
+        wi = "None" if w_init is None else f"(Some {vq(w_init)})"
+        xi = "None" if Xw_init is None else f"(Some {vq(Xw_init)})"
+        expr = (f"pn_case {mat(X)} {vq(y)} {cfg['max_iter']} {cfg['max_pn_iter']} {z(cfg['p0'])} {q(cfg['tol'])} {b(fi)} {b(fixp)} "
+                f"{meth('subdiff_distance')} {meth('prox_1d')} {meth('value')} {meth('generalized_support')} {wi} {xi}")
+        if obs["err"]:
+            o = "{| or_err := true; or_w := []; or_obj := []; or_stop := XBad |}"
+            dist["err"] += 1
+        else:
+            o = "{| or_err := false; or_w := %s; or_obj := %s; or_stop := %s |}" % (vq(obs["w"]), lst([xq(v) for v in obs["obj"]]), xq(obs["stop"]))
+            dist["iters"][len(obs["obj"])] = dist["iters"].get(len(obs["obj"]), 0) + 1
+        dist["intercept"] += fi; dist["fixpoint"] += fixp; dist["warm"] += w_init is not None; dist["sparse"] += sp
+        dist["penalties"][pname] = dist["penalties"].get(pname, 0) + 1
+        cases.append((f"pn_e2e#{k} pen={pname}{fd} cfg={cfg} sparse={sp} X={X.tolist()} y={y.tolist()} w_init={w_init} -> {obs}", expr, "chk_pn_e2e", o))
+    return cases, dist
+
+
 def run_e2e(cases, imports, tag, shard):
     """End-to-end float correspondences (GramCD, FISTA) run on non-dyadic numbers.  Where exact arithmetic has a tie (equal
     scores under np.argmax, an extrapolated objective equal to the current one, a score equal to the tolerance) binary64 has
@@ -651,10 +733,14 @@ def run_e2e(cases, imports, tag, shard):
         for lab in r["bad"]:
             _, expr, chk, exp = by[lab]
             vs = [expr]
+            frag = [f for pre, f in (("gram_case_aa ", "frag_gram"), ("fista_case ", "frag_fista"), ("pn_case ", "frag_pn")) if expr.startswith(pre)][0]
             for inst in ("QNumLoose", "QNumTight"):
-                e = expr.replace("gram_case_aa ", f"gram_case_aa_N {inst} ").replace("fista_case ", f"fista_case_N {inst} ")
+                e = expr
+                for pre in ("gram_case_aa", "fista_case", "pn_case"):
+                    if e.startswith(pre + " "):
+                        e = f"{pre}_N {inst} " + e[len(pre) + 1:]
                 vs.append(e.replace(" Q _ ", f" Q {inst} "))
-            near.append((lab, "(" + ", ".join(vs) + ")", "frag_gram" if "gram_case_aa " in expr else "frag_fista", exp))
+            near.append((lab, "(" + ", ".join(vs) + ")", frag, exp))
         rn = tvlib.run_cases(near, imports, tag + "x", shard=2, jobs=16)
         robust = set(rn["bad"])
         fragile = [lab for lab in r["bad"] if lab not in robust]
@@ -685,10 +771,13 @@ def solver_corr(tier, rng, tag):
     fc, fdist = make_fista_cases(rng, 40 if tier == "quick" else 400)
     rf = run_e2e(fc, FISTA_IMPORTS, tag + "f", 6)
     fdist["decision_fragile"] = [x[:300] for x in rf["fragile"]]
-    allc = cases + bc + pc + fc + ac + mc + gc_
-    return dict(cases=len(allc), bad=r["bad"] + rb["bad"] + rp["bad"] + rf["bad"] + ra["bad"] + rm["bad"] + rg["bad"],
-                errors=r["errors"] + rb["errors"] + rp["errors"] + rf["errors"] + ra["errors"] + rm["errors"] + rg["errors"],
-                distribution=dict(gramcd_end_to_end=dist, groupbcd_mock_traces=bdist, proxnewton_mock_traces=pdist, fista_end_to_end=fdist, multitaskbcd_mock_traces=mdist, groupproxnewton_mock_traces=gdist_),
+    pe, pedist = make_pn_e2e_cases(rng, 150 if tier == "quick" else 1500)
+    rpe = run_e2e(pe, PN_E2E_IMPORTS, tag + "e", 8)
+    pedist["decision_fragile"] = [x[:300] for x in rpe["fragile"]]
+    allc = cases + bc + pc + fc + ac + mc + gc_ + pe
+    return dict(cases=len(allc), bad=r["bad"] + rb["bad"] + rp["bad"] + rf["bad"] + ra["bad"] + rm["bad"] + rg["bad"] + rpe["bad"],
+                errors=r["errors"] + rb["errors"] + rp["errors"] + rf["errors"] + ra["errors"] + rm["errors"] + rg["errors"] + rpe["errors"],
+                distribution=dict(gramcd_end_to_end=dist, groupbcd_mock_traces=bdist, proxnewton_mock_traces=pdist, fista_end_to_end=fdist, multitaskbcd_mock_traces=mdist, groupproxnewton_mock_traces=gdist_, proxnewton_end_to_end=pedist),
                 distinct_nontrivial=sum(1 for c in allc if "'obj': []" not in c[0] and "'err': True" not in c[0]),
                 samples=[dict(gramcd=cases[0][0][:500]), dict(groupbcd=bc[0][0][:500])])
 
@@ -704,10 +793,13 @@ def merge_corr(a, b_):
     return out
 
 
-if __name__ == "__main__" and len(__import__("sys").argv) > 3 and __import__("sys").argv[3] in ("bcd", "pn", "fista", "aa", "mt", "gpn"):
+if __name__ == "__main__" and len(__import__("sys").argv) > 3 and __import__("sys").argv[3] in ("bcd", "pn", "fista", "aa", "mt", "gpn", "pne2e"):
     import sys, tvlib
     rng = random.Random(int(sys.argv[1]))
-    if sys.argv[3] == "pn":
+    if sys.argv[3] == "pne2e":
+        cases, dist = make_pn_e2e_cases(rng, int(sys.argv[2]))
+        r = run_e2e(cases, PN_E2E_IMPORTS, "pne2e", 8)
+    elif sys.argv[3] == "pn":
         cases, dist = make_pn_cases(rng, int(sys.argv[2]))
         r = tvlib.run_cases(cases, PN_IMPORTS, "pn", shard=12, jobs=16)
     elif sys.argv[3] == "gpn":
@@ -740,3 +832,4 @@ if __name__ == "__main__":
     print({k: v for k, v in r.items() if k != "bad"}, len(r["bad"]))
     for x in r["bad"][:5]:
         print("BAD", x[:1500])
+
